@@ -12,7 +12,9 @@ removed / reordered; view total != sum of member totals; months / total / cv / b
 re-computation (fractions.Fraction, strftime); a filter that must raise lists somebody or aborts the run; a view
 that tests a variable differs from the view that tests the variable's definition; a chained comparison
 `lo OP X OP hi` (in a filter or a variable) differs from its conjunction twin `lo OP X and X OP hi` in the same file or
-from the verdict recomputed from the independently recomputed X (X below / inside / above / on the bounds)."""
+from the verdict recomputed from the independently recomputed X (X below / inside / above / on the bounds); views with
+byte-identical filter text but different view-local variables (or a local shadowing a global), in every order, differ
+from the verdict recomputed from each view's own threshold (systematic corpus family + random draws)."""
 import ast
 import copy
 import json
@@ -159,6 +161,60 @@ def ref_groups(m, field):
         y, mo, d = map(int, t['d'].split('-'))
         g.setdefault(date(y, mo, d).strftime(fmt), []).append(Fraction(t['a'], 64))
     return [g[k] for k in sorted(g)]
+
+
+def same_text_family(ms, tag, pick=None):
+    """Views with byte-identical filter text whose verdict is decided by DIFFERENT view-local variables (or by a
+    local shadowing a global).  pick(list) chooses (random in generated cases, first/fixed in the corpus).
+    Returns (globals to add, views).  Each view carries 'same' = [prim, op, [num, den]]: filter <=> X op k."""
+    pick = pick or (lambda l: l[0])
+    live = [m for m in ms if not spec_excluded(m)] or ms
+    prim = pick(['total', 'months', 'count'])
+    src = {'months': 'months', 'total': 'total', 'count': 'count(payments)'}[prim]
+    vals = sorted({chain_value(prim, m) for m in live})
+    lo, hi = vals[0], vals[-1]
+    # thresholds that split the merchants differently: below all, between, above all
+    ks = [lo - 1, (lo + hi) / 2 if prim == 'total' else Fraction((lo + hi).numerator // (2 * (lo + hi).denominator) + 1), hi + 1]
+    ks = [Fraction(int(k * 64), 64) for k in ks]
+    op = pick(['>=', '>', '<', '<='])
+
+    def lit(k):
+        return flit(k) if prim == 'total' else str(int(k))
+    shape = pick(['locals', 'locals3', 'via-base', 'shadow-global', 'compound'])
+    flt = f'{src} {op} sfloor'
+    views, globs = [], []
+    if shape == 'locals':
+        order = pick([[0, 2], [2, 0], [1, 0], [2, 1]])
+        for j, ki in enumerate(order):
+            views.append({'name': f'Sm{tag}{j}', 'vars': [['sfloor', lit(ks[ki])]], 'filter': flt, 'same': [prim, op, [ks[ki].numerator, ks[ki].denominator]]})
+    elif shape == 'locals3':
+        order = pick([[0, 1, 2], [2, 1, 0], [1, 2, 0]])
+        for j, ki in enumerate(order):
+            views.append({'name': f'Sm{tag}{j}', 'vars': [['sfloor', lit(ks[ki])]], 'filter': flt, 'same': [prim, op, [ks[ki].numerator, ks[ki].denominator]]})
+    elif shape == 'via-base':
+        # identical filter text AND identical text of the variable the filter reads; an earlier local differs
+        order = pick([[0, 2], [2, 0]])
+        for j, ki in enumerate(order):
+            views.append({'name': f'Sm{tag}{j}', 'vars': [['sbase', lit(ks[ki])], ['sfloor', '(sbase + 0)']], 'filter': flt,
+                          'same': [prim, op, [ks[ki].numerator, ks[ki].denominator]]})
+    elif shape == 'shadow-global':
+        # one view shadows the global, the other reads it; both orders
+        globs.append(['sfloor', lit(ks[0])])
+        pair = [{'name': f'Sm{tag}0', 'vars': [['sfloor', lit(ks[2])]], 'filter': flt, 'same': [prim, op, [ks[2].numerator, ks[2].denominator]]},
+                {'name': f'Sm{tag}1', 'vars': [], 'filter': flt, 'same': [prim, op, [ks[0].numerator, ks[0].denominator]]}]
+        views += pair if pick([True, False]) else pair[::-1]
+    else:
+        flt = f'months >= 1 and {src} {op} sfloor'
+        order = pick([[2, 0], [0, 2]])
+        for j, ki in enumerate(order):
+            views.append({'name': f'Sm{tag}{j}', 'vars': [['sfloor', lit(ks[ki])]], 'filter': flt, 'same': [prim, op, [ks[ki].numerator, ks[ki].denominator]]})
+    return globs, views
+
+
+def same_truth(meta, m):
+    import operator
+    ops = {'<': operator.lt, '<=': operator.le, '>': operator.gt, '>=': operator.ge}
+    return ops[meta[1]](chain_value(meta[0], m), Fraction(*meta[2]))
 
 
 class ExprGen:
@@ -444,6 +500,10 @@ def gen_case(rnd, focus=None):
             va = {'name': f'ChA{ia}', 'vars': [['rng', chain]], 'filter': 'rng', 'chain': meta}
         case['views'].append(va)
         case['views'].append({'name': f'ChB{ia}', 'vars': [], 'filter': conj})
+    if rnd.random() < .3 and not ({'months', 'total', 'count', 'payments', 'sfloor', 'sbase'} & {n for n, _ in case['globals']}):
+        gl, vs = same_text_family(ms, str(len(case['views'])), rnd.choice)
+        case['globals'] += gl
+        case['views'] += vs
     if rnd.random() < .05 and len(case['views']) >= 2 and 'chain' not in case['views'][0] and \
             not case['views'][-1]['name'].startswith('Ch'):
         case['views'][-1]['name'] = case['views'][0]['name']          # duplicate view name
@@ -662,6 +722,14 @@ def oracle(case, results):
                 if sorted(members) != sorted(m2):
                     bad.append(('chain-means-conjunction', None, {'chained_view': v['name'], 'lists': members,
                                                                  'conjunction_view': ch['twin_name'], 'lists_': m2}))
+        if 'same' in v and names.count(v['name']) == 1 and \
+                not ({'months', 'total', 'count', 'payments'} & shadowed):
+            expect_sm = sorted(m['name'] for m in ms if not spec_excluded(m) and same_truth(v['same'], m))
+            if sorted(members) != expect_sm:
+                bad.append(('same-text-recomputed', None,
+                            {'view': v['name'], 'vars': v['vars'], 'filter': v['filter'], 'listed': members,
+                             'recomputed_true_of': expect_sm,
+                             'other_views_with_this_filter_text': [w['name'] for w in case['views'] if w is not v and w['filter'] == v['filter']]}))
         for m in members:
             mm = [x for x in ms if x['name'] == m]
             if mm and spec_excluded(mm[0]):
@@ -1132,6 +1200,27 @@ def corpus_cases():
                    {'name': 'ChA2', 'vars': [['rng', '9 >= count(payments) >= 5']], 'filter': 'rng',
                     'chain': {'prim': 'count', 'ops': ['>=', '>='], 'a': [9, 1], 'b': [5, 1], 'twin_name': 'ChB2'}},
                    {'name': 'ChB2', 'vars': [], 'filter': '9 >= count(payments) and count(payments) >= 5'}], [A, Bm, Cm]))
+    # views with identical filter text and different view-local variables / a local shadowing a global,
+    # every shape x every order x every primitive x every operator position (systematic, always run)
+    fam_ms = [A, Bm, Cm, {'name': 'Dyn', 'cat': 'Food', 'sub': '', 'txns': [{'d': '2024-12-31', 'a': 64, 'tags': []}]}]
+    seen = set()
+    for prim_i in range(3):
+        for op_i in range(4):
+            for shape_i in range(5):
+                for order_i in range(4):
+                    choices = iter([prim_i, op_i, shape_i, order_i, order_i])
+
+                    def pick(l, it=choices):
+                        return l[next(it, 0) % len(l)]
+                    gl, vs = same_text_family(fam_ms, 'x', pick)
+                    key = json.dumps([gl, vs], sort_keys=True)
+                    if key in seen:
+                        continue
+                    seen.add(key)
+                    if (prim_i + op_i + shape_i + order_i) % 3 == 0:
+                        # and with an unrelated view of the same filter-text family in front / behind
+                        vs = [{'name': 'All', 'vars': [], 'filter': 'True'}] + vs + [{'name': 'All2', 'vars': [['sfloor', '1']], 'filter': 'True'}]
+                    out.append(mk(vs, fam_ms, gl))
     return out
 
 
